@@ -400,11 +400,29 @@ func buildUniverse() []*entry {
 		n.Spec.BGP.IPv6Address = ip6
 		return n
 	}
+	// a node that carries TUNNEL addresses (IPIP, VXLAN v4/v6, Wireguard): the pairs below differ ONLY in the node's
+	// main IPv4 / IPv6 address (and subnet), the tunnel addresses stay the same
+	nodeT := func(name, ip4, ip6, ipip, vx4, vx6, wg4 string) *internalapi.Node {
+		n := node6(name, ip4, ip6)
+		n.Spec.BGP.IPv4IPIPTunnelAddr = ipip
+		n.Spec.IPv4VXLANTunnelAddr = vx4
+		n.Spec.IPv6VXLANTunnelAddr = vx6
+		if wg4 != "" {
+			n.Spec.Wireguard = &internalapi.NodeWireguardSpec{InterfaceIPv4Address: wg4}
+		}
+		return n
+	}
 	// the local node also has a v6-ONLY variant (no IPv4 address: zero V4 CIDR — fix 7bc5b47) and a dual-stack one
 	add("node:h0", model.ResourceKey{Kind: internalapi.KindNode, Name: localHost}, node(localHost, "192.168.0.1/24"), node(localHost, "192.168.5.1/24"),
-		node6(localHost, "", "fd00:aa::1/64"), node6(localHost, "192.168.0.1/24", "fd00:aa::1/64"))
+		node6(localHost, "", "fd00:aa::1/64"), node6(localHost, "192.168.0.1/24", "fd00:aa::1/64"),
+		nodeT(localHost, "192.168.0.1/24", "fd00:aa::1/64", "10.0.0.1", "10.0.0.0", "fd00:10::", "10.0.0.2"),
+		nodeT(localHost, "192.168.5.1/24", "fd00:bb::1/64", "10.0.0.1", "10.0.0.0", "fd00:10::", "10.0.0.2"))
 	add("node:h1", model.ResourceKey{Kind: internalapi.KindNode, Name: remote1}, node(remote1, "192.168.0.2/24"), node(remote1, "192.168.9.2/24"), node(remote1, "192.168.0.3/32"),
-		node6(remote1, "192.168.0.2/24", "fd00:aa::2/64"))
+		node6(remote1, "192.168.0.2/24", "fd00:aa::2/64"),
+		nodeT(remote1, "192.168.0.2/24", "fd00:aa::2/64", "10.0.1.1", "10.0.1.0", "fd00:10::1", "10.0.1.2"),
+		nodeT(remote1, "192.168.9.2/24", "fd00:bb::2/64", "10.0.1.1", "10.0.1.0", "fd00:10::1", "10.0.1.2"),
+		nodeT(remote1, "192.168.0.2/24", "", "10.0.1.1", "", "", ""),
+		nodeT(remote1, "192.168.9.2/24", "", "10.0.1.1", "", "", ""))
 	add("node:h2", model.ResourceKey{Kind: internalapi.KindNode, Name: remote2}, node(remote2, "192.168.0.3/24"), node(remote2, "192.168.0.2/24")) // may duplicate h1's IP
 	add("vtep:h1", model.HostConfigKey{Hostname: remote1, Name: "IPv4VXLANTunnelAddr"}, "10.0.1.0", "10.0.1.7")
 	add("vtep:h2", model.HostConfigKey{Hostname: remote2, Name: "IPv4VXLANTunnelAddr"}, "10.0.2.0")
